@@ -95,6 +95,7 @@ fn build_prog(c: &AccCase, pkt_base: u64) -> Vec<u8> {
         _ => {
             // base register r2 = target - off
             match c.target {
+                Target::Abs(_) if c.direct == 3 => {} // r1 (context pointer) itself is the base
                 Target::Abs(t) => {
                     let b = t.wrapping_sub(c.off as i64 as u64);
                     if c.warm && c.acc != Acc::Xadd {
@@ -133,7 +134,11 @@ fn build_prog(c: &AccCase, pkt_base: u64) -> Vec<u8> {
                     }
                 }
             }
-            let base: u8 = if c.direct == 1 { 10 } else { 2 };
+            let base: u8 = match c.direct {
+                1 => 10,
+                3 => 1,
+                _ => 2,
+            };
             match c.acc {
                 Acc::Ldx => v.push(Insn::new(opc, 0, base, c.off, 0)),
                 Acc::St => v.push(Insn::new(opc, base, 0, c.off, ST_IMM)),
@@ -390,11 +395,20 @@ pub fn run(a: &Args, rep: &mut Report, cl: bool) {
                 _ => {
                     // stack targets: half of them addressed through r10 itself (or an unmodified
                     // copy), the whole displacement in the offset field
-                    let (off, direct, tname) = match t {
-                        Target::StackRel(d) if rng.chance(1, 2) => (d as i16, 1 + rng.below(2) as u8, "stack-direct".to_string()),
+                    // targets near the region r1 points to: a third of them addressed through r1 itself
+                    let r1_base = match l.kind {
+                        Kind::Mbuff => l.mbuff.as_ref().map(|m| m.addr()),
+                        _ => l.pkt.as_ref().map(|p| p.addr()),
+                    };
+                    let (off, direct, tname) = match (t, r1_base) {
+                        (Target::StackRel(d), _) if rng.chance(1, 2) => (d as i16, 1 + rng.below(2) as u8, "stack-direct".to_string()),
+                        (Target::Abs(tt), Some(b)) if (tt.wrapping_sub(b) as i64) >= i16::MIN as i64 && (tt.wrapping_sub(b) as i64) <= i16::MAX as i64 && rng.chance(1, 3) => {
+                            (tt.wrapping_sub(b) as i64 as i16, 3, format!("{tname}-via-r1"))
+                        }
                         _ => (off, 0, tname),
                     };
-                    cases.push(AccCase { acc, width, target: t, off, tag: tname, warm: rng.chance(1, 4), via_set_program: rng.chance(1, 4), direct })
+                    let warm = direct != 3 && rng.chance(1, 4);
+                    cases.push(AccCase { acc, width, target: t, off, tag: tname, warm, via_set_program: rng.chance(1, 4), direct })
                 }
             }
         }
